@@ -5,12 +5,14 @@ import (
 	"os"
 	"path/filepath"
 	"strings"
+	"sync"
 	"sync/atomic"
 
 	dawn "github.com/pgavlin/dawn"
 	"github.com/pgavlin/dawn/internal/verif/vlib"
 	"github.com/pgavlin/dawn/internal/verif/vsched"
 	"github.com/pgavlin/dawn/label"
+	"go.starlark.net/starlark"
 )
 
 // ---- C18 (c): output is delivered as lines exactly once, in order, whatever the chunking ----
@@ -247,6 +249,73 @@ func (x *searcher) checkChatty(s, n *State, res *buildResult) {
 		}
 		if strings.Join(got, "\x00") != strings.Join(w, "\x00") {
 			x.violation("protocol:lines-wrong-under-interleaving", fmt.Sprintf("%s printed %q, expected %q; schedule=%v", t, got, w, res.Sched.Choices), s, n.Hist, res)
+		}
+	}
+}
+
+// ---- C18 (d): the same protocol as seen by a run(callback=...) consumer (the REPL's event stream) ----
+
+func (x *searcher) replCallbackProtocol(r *vlib.Run) {
+	base := initialVars()
+	cases := []struct {
+		name string
+		v    Vars
+	}{
+		{"first build", base},
+		{"failing leaf", func() Vars { v := base; v.Fail[2] = true; return v }()},
+		{"failing gen", func() Vars { v := base; v.Fail[0] = true; return v }()},
+		{"missing dependency", func() Vars { v := base; v.Missing = true; return v }()},
+	}
+	for _, c := range cases {
+		var seq []string
+		var runErr error
+		x.withRoot(func(root string) {
+			writeTree(root, c.v.render())
+			be := &bodyEnv{root: root, fail: map[string]bool{}}
+			for i, f := range c.v.Fail {
+				if f {
+					be.fail[failName[i]] = true
+				}
+			}
+			proj, err := dawn.Load(root, &dawn.LoadOptions{Args: c.v.args(), Builtins: be.builtins()})
+			if err != nil {
+				vlib.Fatalf("repl protocol project does not load: %v", err)
+			}
+			pkg, _ := label.Parse("//")
+			thread, globals := proj.REPLEnv(os.Stderr, pkg)
+			var mu sync.Mutex
+			cb := starlark.NewBuiltin("cb", func(_ *starlark.Thread, _ *starlark.Builtin, args starlark.Tuple, _ []starlark.Tuple) (starlark.Value, error) {
+				ev := args[0].(starlark.HasAttrs)
+				kind, _ := ev.Attr("kind")
+				lbl, _ := ev.Attr("label")
+				k, _ := starlark.AsString(kind)
+				l := ""
+				if lbl != nil {
+					l, _ = starlark.AsString(lbl)
+				}
+				mu.Lock()
+				seq = append(seq, k+" "+l)
+				mu.Unlock()
+				return starlark.None, nil
+			})
+			_, runErr = starlark.Call(thread, globals["run"], starlark.Tuple{starlark.String(tTop)}, []starlark.Tuple{{starlark.String("callback"), cb}})
+		})
+		r.Add("repl_callback_builds", 1)
+		per := map[string][]string{}
+		for _, e := range seq {
+			p := strings.SplitN(e, " ", 2)
+			if p[0] == "Print" || p[0] == "RunDone" {
+				continue
+			}
+			per[p[1]] = append(per[p[1]], strings.TrimPrefix(p[0], "Target"))
+		}
+		for l, ks := range per {
+			s := strings.Join(ks, " ")
+			ok := s == "UpToDate" || s == "Evaluating Succeeded" || s == "Evaluating Failed" || s == "Failed"
+			if !ok {
+				x.r.Violation("C18:protocol:callback-stream", fmt.Sprintf("scenario %q: a run(callback=...) consumer sees the event kinds [%s] for %s (Run returned %v)", c.name, s, l, runErr),
+					map[string]any{"scenario": c.name, "events": seq})
+			}
 		}
 	}
 }
